@@ -190,6 +190,28 @@ Proof.
     + right; right. auto.
 Qed.
 
+Lemma func_reads_ref_g : forall B (v : B) rho reads, fdev D (obs_f rho reads) ->
+  refines (if forallb (res_closed rho) reads then Ok v else Err Other) (verd (obs_f rho reads) (Ok v)).
+Proof.
+  intros B v rho. induction reads as [|e r IH]; intros HD; cbn [forallb obs_f map]; [apply refines_refl|].
+  fold (obs_f rho r). rewrite verd_cons. unfold verd at 1. cbn [map first_fail ob_stat].
+  destruct (eval rho e) as [q|] eqn:E.
+  - rewrite (eval_closed _ _ _ E). cbn [andb]. apply IH. eapply fdev_cons; eauto.
+  - destruct (res_closed rho e) eqn:Ec; cbn [andb].
+    + right; right. split; auto. right. apply (HD e rho); [left; auto|]. unfold vanishes. rewrite Ec, E. reflexivity.
+    + right; right. auto.
+Qed.
+
+(* the time dependent values of a ParallelChannelPT: the same deviation as in a function atom *)
+Lemma tdep_ref : forall s owt drop, fdev D (obs_f (lookup s) (kept drop owt)) ->
+  refines (tdep s owt drop) (verd (obs_f (lookup s) (kept drop owt)) (Ok tt)).
+Proof.
+  intros s owt drop HD. unfold tdep.
+  destruct (kept drop owt) as [|e es] eqn:Ek; [apply refines_refl|].
+  destruct (forced_ok s); fin.
+  apply func_reads_ref_g; auto.
+Qed.
+
 Lemma build_atom_ref : forall k chs reads dur cs s drop,
   fdev D (obs_build (Atom k chs reads dur cs []) (lookup s) drop) ->
   refines (build_atom k chs reads dur cs s drop)
@@ -290,6 +312,11 @@ Proof.
     exact IHp.
   - (* Ren *)
     cbn [build obs_build wave] in *. cbn [wf] in Hwf. apply IHp; auto.
+  - (* ParT *)
+    cbn [build obs_build wave] in *. cbn [wf] in Hwf. rewrite verd_app. apply fdev_app in HD as [HD HD2].
+    eapply bind_ref'; [apply IHp; auto|]. intros _.
+    destruct (wave p (lookup s) drop); [|apply refines_refl].
+    eapply bind_ref; [apply tdep_ref; auto|apply refines_refl].
 Qed.
 
 Definition meas_at_ok (p : pt) : Prop :=
@@ -320,6 +347,9 @@ Proof.
     rewrite <- (verd_stat_eq _ _ _ _ C3). eapply IHp; eauto.
   - (* Ren *)
     cbn [meas_at obs_meas]. cbn [wf] in Hwf. cbn [build] in Hb. eapply IHp; eauto.
+  - (* ParT *)
+    cbn [meas_at obs_meas]. cbn [wf] in Hwf. cbn [build] in Hb.
+    destruct (build p s drop) as [w'|] eqn:Eb; cbn [bind] in Hb; [|discriminate]. eapply IHp; eauto.
 Qed.
 
 (* ------------------------------------------------------------------------------------------------------------ *)
@@ -395,6 +425,9 @@ Proof.
     apply (IHp (proj2 Hwf) (SMapped s m) drop). exact HD.
   - (* Ren *)
     cbn [run obs plays] in *. cbn [wf] in Hwf. apply IHp; auto.
+  - (* ParT *)
+    cbn [run obs plays] in *. rewrite verd_app. cbn [wf] in Hwf. apply fdev_app in HD as [HD1 HD].
+    eapply bind_ref; [apply tdep_ref; auto|]. apply IHp; auto.
 Qed.
 End Ref.
 
